@@ -2782,7 +2782,13 @@ class SequenceAndSetBase(base.ConstructedAsn1Type):
     def prettyPrintType(self, scope=0):
         scope += 1
         representation = '%s -> %s {\n' % (self.tagSet, self.__class__.__name__)
-        for idx, componentType in enumerate(self.componentType.values() or self._componentValues):
+        components = self.componentType.values()
+
+        # record type without declared components: describe what it holds
+        if not components and self._componentValues is not noValue:
+            components = self._componentValues
+
+        for idx, componentType in enumerate(components):
             representation += ' ' * scope
             if self.componentType:
                 representation += '"%s"' % self.componentType.getNameByPosition(idx)
